@@ -13,7 +13,7 @@ import (
 func init() { reg("C11", C11) }
 
 type sysShadow struct {
-	s                *emulator.System
+	s               *emulator.System
 	rom, wram, sram []byte
 }
 
